@@ -16,6 +16,8 @@ NOTES = {
     "C09-3A": "NOT caught, deliberately (same ambiguity as C09-2A): assigning 0 to a new label registers it as a reported "
               "variable; bookkeeping stays a consistent upper bound (C14 holds) and the solver returns assignments over the "
               "reported variables, which the unchanged library also does for models with cancelled terms",
+    "C09-5C": "NOT caught, deliberately (the same change as C09-2A, written independently): Matrix models whose terms cancelled are "
+              "enumerated over their reported variables, which is what the labelled types of the unchanged library do",
     "C09-2A": "NOT caught, deliberately: for a Matrix model whose terms cancelled the change returns assignments over the "
               "*reported* variables instead of the variables in the keys; the labelled types of the unchanged library already "
               "do exactly that, so 'the model's variables' is not pinned for stale models and both readings are accepted",
